@@ -135,6 +135,15 @@ def embDepObjC10b (cls : String) (src : PVal) (info : DepInfo) (head : PVal) : P
     ("script", embDictsC10b info.script), ("stylesheet", embDictsC10b info.stylesheet),
     ("meta", embDictsC10b info.metas), ("all_files", .bool info.allFiles), ("head", head)]
 
+/-- the attributes of an `HTMLDependency` the model describes -/
+def depFieldNamesC10b : List String := ["name", "version", "source", "script", "stylesheet", "meta", "all_files", "head"]
+
+/-- an instance restricted to these attributes, in this order: the order in which `__init__` makes its assignments (the
+    order of `__dict__`) is not part of what the tie states -/
+def projDepC10b : PVal → PVal
+  | .obj c fs => .obj c (depFieldNamesC10b.filterMap fun k => (fieldGet? k fs).map fun v => (k, v))
+  | v => v
+
 /-- `if x is None: x = [] elif isinstance(x, dict): x = [x]` on a value -/
 def normSeqC10b (v : PVal) : PVal :=
   if isNone v then .list [] else if isInstance v ["dict"] then .list [v] else v
@@ -199,6 +208,8 @@ theorem pyRebuildSeq_listC10b (xs elems : List PVal) : pyRebuildSeq (.list xs) e
 
 theorem isNone_listC10b (xs : List PVal) : isNone (.list xs) = false := rfl
 theorem isDict_listC10b (xs : List PVal) : isInstance (.list xs) ["dict"] = false := rfl
+theorem isNone_not_dictC10b (v : PVal) (h : isNone v = true) : isInstance v ["dict"] = false := by
+  cases v <;> first | rfl | cases h
 
 theorem fieldGet?_fieldSet_sameC10b (k : String) (v : PVal) (fs : List (String × PVal)) :
     fieldGet? k (fieldSet k v fs) = some v := by
